@@ -278,6 +278,9 @@ pub fn run(run: &Run) {
     let n = progs.len() as u64 + n_stress(run.tier);
     crate::sup::run_cases(run, "C13", n, 1, &|idx| (format!("case{}", idx), json!({"idx": idx})));
     run.add("programs", progs.len() as u64);
+    // what the scheduler actually observed (measured in the workers): executions = transitions walked, distinct interleavings = states seen
+    run.extra("transitions", json!(run.counter("controlled_executions")));
+    run.extra("states", json!(run.counter("distinct_interleavings")));
     if !run.quick() {
         crate::lanes::miri(run, "threads", &[1], Some(16));
         // ThreadSanitizer lane over the free-running stress rounds (the controlled schedules serialise the threads, nothing to race)
